@@ -805,6 +805,30 @@ const("tf.bool", "bool")
 const("np.uint8", "uint8")
 
 
+@model("tf.python.eager.context.executing_eagerly", "tf.executing_eagerly", "context.executing_eagerly")
+def _executing_eagerly(ip):
+  return True        # qkeras asserts eager execution at import (qkeras/__init__.py)
+
+
+@model("array_ops.split", "tf.split")
+def _split(ip, value, num_or_size_splits=None, axis=0, **k):
+  n = num_or_size_splits
+  if isinstance(value, Term) and isinstance(n, int):
+    return [Term("split", (value, n, axis, i)) for i in range(n)]
+  if isinstance(value, Term) and isinstance(n, (list, tuple)):
+    return [Term("split", (value, tuple(n), axis, i)) for i in range(len(n))]
+  raise Unsupported("split of %r" % (value,))
+
+
+@model("array_ops.unstack", "tf.unstack")
+def _unstack(ip, value, num=None, axis=0, **k):
+  # qkeras only unstacks the (2, 3*units) bias of a reset_after GRU: two rows
+  if isinstance(value, Term):
+    n = num if isinstance(num, int) else 2
+    return [Term("unstack", (value, axis, i)) for i in range(n)]
+  raise Unsupported("unstack of %r" % (value,))
+
+
 @model("collections.OrderedDict")
 def _ordered_dict(ip, *a, **k):
   return dict(*a, **k)
